@@ -392,7 +392,7 @@ func init() {
 	})
 
 	register(&Rule{
-		ID: "entry.exit-once", Props: []string{"C01", "C06"}, Floor: 2,
+		ID: "entry.exit-once", Props: []string{"C01", "C06", "C04"}, Floor: 2,
 		Doc: "in SentinelEntry.Exit everything that touches the context (calls receiving it, stores through it) or reaches slots / handlers / the pool lies inside the function literal passed to Do of the entry's sync.Once: a second or late Exit must not affect any context, which may already belong to another entry",
 		Run: func(c *Ctx) {
 			f := c.P.Func("core/base.(*SentinelEntry).Exit")
@@ -584,7 +584,7 @@ func init() {
 	// -------------------------------------------------------------------------------- slot chain
 
 	register(&Rule{
-		ID: "chain.complete-implies-pass", Props: []string{"C01", "C16", "C04"}, Floor: 1,
+		ID: "chain.complete-implies-pass", Props: []string{"C01", "C16", "C04", "C06"}, Floor: 1,
 		Doc: "SlotChain.exit reaches StatSlot.OnCompleted only under a condition on an EntryContext field M such that (i) a fresh / Reset context does not satisfy it and (ii) M is given the satisfying value only in SlotChain.Entry, implied by 'not blocked', with no call (no panic edge) between that store and the first OnEntryPassed: completion callbacks (which decrement the gauge) run only for entries whose pass callbacks ran, also when a prepare or rule slot panics and the request is passed",
 		Run: func(c *Ctx) {
 			exit := c.P.Func("core/base.(*SlotChain).exit")
